@@ -341,6 +341,14 @@ func trimStack(st string) string {
 // Go spawns a controlled thread (rewritten `go` statements and the harness).
 func Go(f func()) { GoNamed("", true, f) }
 
+// GoEager spawns a library thread that reacts at once: whenever it is enabled it
+// is first in the canonical order and delaying it costs a deviation (the
+// driver's context watcher: a goroutine that only waits for events).
+func GoEager(f func()) {
+	GoNamed(fmt.Sprintf("%s.w%d", S.cur.Name, S.cur.spawned), true, f)
+	S.threads[len(S.threads)-1].Urgent = true
+}
+
 // GoUrgent spawns a harness thread that is placed first in the canonical order
 // whenever it is enabled (the canceller).
 func GoUrgent(name string, f func()) {
@@ -665,7 +673,9 @@ func (a *acc) site() string {
 		if i := strings.LastIndex(fn, "/"); i >= 0 {
 			fn = fn[i+1:]
 		}
-		if fn != "" && !strings.HasPrefix(fn, "vrt.") && !strings.HasPrefix(fn, "runtime.") {
+		// compiler-generated forwarding methods (a promoted method of an embedded
+		// connection) are not source sites
+		if fn != "" && !strings.HasPrefix(fn, "vrt.") && !strings.HasPrefix(fn, "runtime.") && f.File != "<autogenerated>" {
 			out = append(out, fn)
 		}
 		if !more {
